@@ -25,7 +25,8 @@ class Contract:
     def __init__(self, qual, params=None, requires=(), ensures=(), raises=None, modifies=(), returns=None, let=None,
                  inline=False, spec=None, drops=(), props=(), name=None, exc_ensures=None, hints=(),
                  use_at_calls=True, expect_raise_paths=None, path_assumes=(), trusted=False, note=None,
-                 allow_other_exc=(), overrides=None, max_paths=400, timeout_s=None, kwargs_call=None, pure=False, varargs=None, harness=None, module=None, native_patches=None, loop=None, loops=None, sum_scales=(), inline_callees=(), pure_on=None):
+                 allow_other_exc=(), overrides=None, max_paths=400, timeout_s=None, kwargs_call=None, pure=False, varargs=None, harness=None, module=None, native_patches=None, loop=None, loops=None, sum_scales=(), inline_callees=(), pure_on=None, loop_returns=()):
+        self.loop_returns = tuple(loop_returns)
         self.pure_on = pure_on
         self.inline_callees = tuple(inline_callees)
         self.sum_scales = list(sum_scales)
@@ -534,8 +535,14 @@ class Engine:
             lp = loops[c.loop]
             args = ast.arguments(posonlyargs=[], args=[ast.arg(arg=a) for a in c.params], vararg=None, kwonlyargs=[],
                                  kw_defaults=[], kwarg=None, defaults=[])
-            node = ast.FunctionDef(name=f'{fnode.name}__loop{c.loop}', args=args, body=lp.body, decorator_list=[],
+            body = list(lp.body)
+            if c.loop_returns:
+                # expose the loop's local variables after one iteration as the result of the extracted function
+                body = body + [ast.Return(value=ast.Tuple(elts=[ast.Name(id=v, ctx=ast.Load()) for v in c.loop_returns],
+                                                          ctx=ast.Load()))]
+            node = ast.FunctionDef(name=f'{fnode.name}__loop{c.loop}', args=args, body=body, decorator_list=[],
                                    returns=None, type_comment=None)
+            ast.fix_missing_locations(node)
             node.lineno, node.end_lineno, node.col_offset = lp.lineno, lp.end_lineno, lp.col_offset
             return m, None, node, 'loop'
         return self.repo.find(c.qual)
